@@ -24,6 +24,12 @@ def bad(c, what, detail, rep):
 
 def label(r):
     n = r.choice([1, 1, 2, 3, 8, 63]) if r.chance(3, 4) else 1 + r.below(63)
+    if r.chance(1, 5):
+        # bytes that mean something in zone-file / presentation syntax, at the start, in the middle and at the END of a label
+        sp = r.choice([b'\\', b'\\\\', b'@', b'*', b'"', b'\x00', b'\xff', b' ', b'(', b';', b'$', b'_', b'\\0', b'\\.'.replace(b'.', b'')])
+        base = bytes(r.choice(b'abcxyz019-') for _ in range(max(0, min(n, 60) - len(sp))))
+        k = r.choice([0, len(base) // 2, len(base)])
+        return (base[:k] + sp + base[k:])[:63] or b'\\'
     return bytes(x if x != 46 else 45 for x in r.bytes(n)) if r.chance(1, 3) else bytes(r.choice(b'abcdefghijklmnopqrstuvwxyz0123456789-') for _ in range(n))
 
 
